@@ -9,5 +9,6 @@ CONSTANTS
   MaxOps = 3
   CapBound = 300
   Cmps = {"len", "lenrev", "const"}
+  MaxSort = 5
 INVARIANTS MemCoversCap OffsetInside BytesOK SlicesOK EmptyViews LenOK WithinMax PanicOK InnerGrowIdle ModeOK
 PROPERTIES PanicChangesNothing OnceMmapAlwaysMmap CapacityMonotone SortOK
